@@ -17,6 +17,8 @@ import struct
 
 import framework as fw
 
+EXTRA_MODELS = ["TargetCore"]
+
 ASSUMPTIONS = [
     "the connection size bounds the whole connected data item (sequence count included) in both directions",
     "reply layout of the Logix tag services as in DESIGN.md Appendix A (type field 2 bytes, 4 for structures)",
@@ -24,6 +26,10 @@ ASSUMPTIONS = [
 ]
 
 ATOMS = {"SINT": 1, "INT": 2, "DINT": 4, "LINT": 8, "REAL": 4, "USINT": 1, "UINT": 2, "LREAL": 8}
+
+
+class Hang(BaseException):
+    pass
 
 
 def mk_tags(rng):
@@ -386,10 +392,14 @@ def check_read_fragments(R, mp, d, conn, tag, info, nelem, policy, rng):
     frag = ReadTagFragmentedRequestPacket.from_request(d._sequence, base)
     pathlen = len(base.request_path)
     asked, frs, pos = [], [], [0]
-    typ = struct.pack("<H", 0xC2)   # SINT array: any fragment length decodes
+    from pycomm3.cip import DataTypes
+    typ = struct.pack("<H", DataTypes[info["data_type"]].code)
     state = {"last": None}
 
     def _send(msg):
+        budget[0] -= 1
+        if budget[0] < 0:
+            raise Hang()
         f = bytes(msg)
         mr = f[44 + 2:]
         assert mr[0] == 0x52
@@ -405,8 +415,15 @@ def check_read_fragments(R, mp, d, conn, tag, info, nelem, policy, rng):
         frs.append((chunk, more))
         return unit_reply(0x52, 6 if more else 0, typ + chunk)
     d._send, d._receive = _send, _receive
-    budget = [4 * len(value) + 8]
-    resp = d.send(frag)
+    budget = [2 * len(value) + 8]
+    try:
+        resp = d.send(frag)
+    except Hang:
+        R.case(("rf-hang", conn, tag, len(value)))
+        R.fail("fragmented read does not terminate (more requests than bytes in the value)",
+               {"op": "read-fragments", "conn": conn, "tag": tag, "bytes": len(value), "fragments": [len(c) for c, _ in frs][:20], "offsets": [o for o, _ in asked][:20]},
+               "no termination within %d requests" % (2 * len(value) + 8), "terminates", "read:fragment:hang")
+        return
     toks = ["rfrag"]
     for c, mflag in frs:
         toks += [fw.t_bytes(c), "1" if mflag else "0"]
@@ -426,10 +443,65 @@ def check_read_fragments(R, mp, d, conn, tag, info, nelem, policy, rng):
             R.fail("read fragment request larger than the connection size", {**case, "item": dl}, dl, conn, "read:fragment:request-oversize")
     if [o for o, _ in asked] != exp:
         R.fail("a follow-up read fragment does not ask for the number of bytes received so far", case, [o for o, _ in asked][:20], exp[:20], "read:fragment:offsets")
-    if not resp or resp.value is None or bytes((x & 0xFF) for x in resp.value) != value:
+    if not resp or resp.value is None or b"".join(int(x).to_bytes(es, "little", signed=x < 0) for x in resp.value) != value:
         R.fail("fragmented read did not reassemble the value", case, None if not resp else "wrong value", "the value", "read:fragment:value")
     if str(m[0]) == "ok" and m[-1] != value:
         R.disagree("read fragment reassembly", case, "model data differs", "value")
+
+
+def check_negotiation(R, mp, rng, thorough):
+    """with_forward_open against the live reference target core: the size the target granted must be the
+    size the driver then plans with; a standard Forward Open after a refused Large one asks for 500."""
+    import target as T
+    from pycomm3 import CIPDriver, LogixDriver
+    from pycomm3.exceptions import PycommError
+    for cls in (CIPDriver, LogixDriver):
+        for al in (True, False):
+            for ast in (True, False):
+                for csize in ([4000] if not thorough else [4000, 4002, 511, 1500]):
+                    tp = T.TargetProc("targetcore")
+                    try:
+                        tp.cfg(accept_large_fo=al, accept_std_fo=ast, session_handle=rng.randrange(1, 2 ** 31), conn_id=rng.randrange(1, 2 ** 31))
+                        kw = dict(init_tags=False, init_program_tags=False) if cls is LogixDriver else {}
+                        drv = T.open_driver(cls, "10.0.0.1", tp, open=False, **kw)
+                        drv._cfg["connection_size"] = csize
+                        opened = True
+                        try:
+                            drv.open()
+                            r = drv.generic_message(service=0x4B, class_code=0x300, instance=1, request_data=b"ab", connected=True)
+                            opened = bool(drv._target_is_connected)
+                        except PycommError:
+                            opened = False
+                        log = tp.log()
+                        attempts = []
+                        for e in log:
+                            if e["ev"] == "app" and e["tag"] == 1010:      # connection opened: [.., ot_size, to_size, large]
+                                attempts.append((int(e["args"][7]), int(e["args"][5])))
+                            elif e["ev"] == "app" and e["tag"] == 1011:    # Forward Open refused: [service, status ...]
+                                attempts.append((1 if e["args"][0] == 0x5B else 0, None))
+                        conns = tp.conns()
+                        m = mp.ask("nego", "1", str(csize), "1" if al else "0", "1" if ast else "0")
+                        case = {"op": "negotiate", "driver": cls.__name__, "accept_large": al, "accept_std": ast, "configured": csize}
+                        R.case(("nego", cls.__name__, al, ast, csize))
+                        R.corr_checked += 1
+                        R.count("negotiation", f"large={al},std={ast}")
+                        m_att = [(m[i], m[i + 1]) for i in range(3, len(m), 2)]
+                        if bool(m[0]) != opened or [a for a, _ in m_att] != [a for a, _ in attempts] or (opened and m[2] != drv.connection_size):
+                            R.disagree("forward open negotiation", case, m, {"opened": opened, "attempts": attempts, "connection_size": drv.connection_size})
+                        if opened:
+                            if len(conns) != 1 or conns[0]["ot_size"] != drv.connection_size or conns[0]["to_size"] != drv.connection_size:
+                                R.fail("the connection size the target granted differs from the size the driver plans with", case,
+                                       {"granted": [(c["ot_size"], c["to_size"]) for c in conns], "driver": drv.connection_size}, "equal", "negotiation:size-mismatch")
+                            if not al and (drv.connection_size != 500 or attempts[-1] != (0, 500)):
+                                R.fail("standard Forward Open after a refused Large one must use 500 bytes", case, {"attempts": attempts, "driver": drv.connection_size}, 500, "negotiation:fallback-size")
+                        if T.bad_events(log):
+                            R.fail("target saw an oversize / malformed event during negotiation", case, T.bad_events(log)[:3], [], "negotiation:bad-event")
+                        try:
+                            drv.close()
+                        except PycommError:
+                            pass
+                    finally:
+                        tp.close()
 
 
 def run(R, escalate=False):
@@ -442,6 +514,7 @@ def run(R, escalate=False):
               "peer fragment-length policies 1, 2, 7, conn/3, conn-k, random. non-trivial = distinct request list with at least one valid request / "
               "transfer with more than one fragment")
     mp = fw.ModelProc("C04")
+    check_negotiation(R, mp, rng, thorough)
     for conn in ([500, 4000] + ([508, 1000, 4002, 511] if thorough else [rng.choice([508, 1000, 4002])])):
         for micro in (False, True):
             for use_ids in ((True, False) if thorough or conn in (500, 4000) else (True,)):
@@ -463,12 +536,16 @@ def run(R, escalate=False):
                         check_write_fragments(R, mp, mk_driver(conn, micro, use_ids, tags), conn, arr, info, nb, rng)
                 pols = [("1", lambda left: 1), ("2", lambda left: 2), ("7", lambda left: 7), ("conn/3", lambda left: max(1, conn // 3)),
                         ("conn-12", lambda left: conn - 12), ("rand", lambda left: rng.randrange(1, conn))]
+                int_arrs = [n for n in tags if tags[n]["dim"] and tags[n]["data_type"] in ("SINT", "INT", "DINT", "LINT")]
                 for pname, pol in pols:
                     for nb in ([conn - 5, conn + 3, 2 * conn + 1] if thorough else [conn + 3]):
                         if pname in ("1", "2") and nb > 1200:
                             nb = 600 + nb % 100
-                        check_read_fragments(R, mp, mk_driver(conn, micro, use_ids, tags), conn, arr, info, min(nb, info["dimensions"][0]), pol, rng)
-                        R.count("fragment_policy", pname)
+                        for a2 in (int_arrs if thorough else [arr, rng.choice([a for a in int_arrs if a != arr])]):
+                            i2 = tags[a2]
+                            ne = max(1, min(nb // ATOMS[i2["data_type"]], i2["dimensions"][0]))
+                            check_read_fragments(R, mp, mk_driver(conn, micro, use_ids, tags), conn, a2, i2, ne, pol, rng)
+                            R.count("fragment_policy", pname + ":" + i2["data_type"])
     mp.close()
 
 
